@@ -49,6 +49,7 @@ type SpecEnv struct {
 	allocOld Term
 	loopHeads map[int]*State
 	loopEntries map[int]*State
+	guard  Term // reach condition under which memory facts emitted during translation hold
 	expand bool // expand quantifiers over constant ranges (proof of table lemmas by ground evaluation)
 	where  string
 	depth  int
@@ -406,7 +407,11 @@ func (env *SpecEnv) typed(v Val) Val {
 				return v
 			}
 		}
-		env.vc.sc.Assume(env.vc.wellTyped(fv, env.cur), "")
+		g := env.guard
+		if g.S == "" {
+			g = tTrue
+		}
+		env.vc.sc.Assume(mkImplies(g, env.vc.wellTyped(fv, env.cur)), "")
 	}
 	return v
 }
